@@ -40,6 +40,14 @@ impl TypeRegistry {
     }
 
     pub(crate) fn unresolved(&self) -> Vec<ItemPath> {
+        #[cfg(pyxis_verif)]
+        if let Some(_guard) = crate::verif::enter(crate::verif::Site::Unresolved) {
+            // Runs the untouched body below, then lets the scheduler order its result.
+            let raw = self.unresolved();
+            return crate::verif::reorder(crate::verif::Site::Unresolved, raw, |p| {
+                p.to_string()
+            });
+        }
         self.types
             .iter()
             .filter(|(_, t)| !t.is_predefined() && !t.is_resolved())
@@ -48,6 +56,12 @@ impl TypeRegistry {
     }
 
     pub(crate) fn add(&mut self, type_: ItemDefinition) {
+        #[cfg(pyxis_verif)]
+        match self.types.get(&type_.path) {
+            Some(old) if old != &type_ => crate::verif::probe("registry:overwrite_different"),
+            Some(_) => crate::verif::probe("registry:overwrite_same"),
+            None => {}
+        }
         self.types.insert(type_.path.clone(), type_);
     }
 
